@@ -7,6 +7,7 @@ import (
 	"math/rand"
 	"runtime"
 	"sort"
+	"strings"
 	"sync"
 	"sync/atomic"
 	"time"
@@ -87,7 +88,15 @@ type c19API struct {
 	close  func()
 }
 
+// c19Prob is the admission probability of the hybrid caches built next: below 1 the cache draws a random number
+// per evicted entry, from a generator that is not safe for concurrent use.
+var c19Prob atomic.Int32 // per cent
+
 func c19Build(kind string, maxSize int64, notes *atomic.Int64) (*c19API, error) {
+	prob := float32(c19Prob.Load()) / 100
+	if prob <= 0 {
+		prob = 1
+	}
 	listener := func(k int, v int64, r theine.RemoveReason) { notes.Add(1) }
 	loader := func(ctx context.Context, k int) (theine.Loaded[int64], error) {
 		var ttl time.Duration
@@ -116,7 +125,7 @@ func c19Build(kind string, maxSize int64, notes *atomic.Int64) (*c19API, error) 
 			save: func(w io.Writer) error { return c.SaveCache(0, w) }, close: c.Close}, nil
 	case "hybrid":
 		sec := &c19Sec{m: map[int][3]int64{}}
-		c, err := b.Hybrid(sec).Workers(2).Build()
+		c, err := b.Hybrid(sec).Workers(2).AdmProbability(prob).Build()
 		if err != nil {
 			return nil, err
 		}
@@ -124,7 +133,7 @@ func c19Build(kind string, maxSize int64, notes *atomic.Int64) (*c19API, error) 
 			save: func(w io.Writer) error { return c.SaveCache(0, w) }, close: func() { c.Close(); c.VerifStore().Close() }}, nil
 	case "hybrid-loading":
 		sec := &c19Sec{m: map[int][3]int64{}}
-		c, err := b.Loading(loader).Hybrid(sec).Build()
+		c, err := b.Hybrid(sec).Workers(4).AdmProbability(prob).Loading(loader).Build()
 		if err != nil {
 			return nil, err
 		}
@@ -362,6 +371,11 @@ func runC19(r *Run) {
 		G := []int{8, 16, 32}[idx%3]
 		ops := r.Pick(6000, 12000)
 		keys := []int{4, 64, 2000}[(idx/2)%3]
+		// every other hybrid cache admits evicted entries to the secondary tier with probability 0.6
+		c19Prob.Store([]int32{100, 60}[(idx/len(kinds))%2])
+		if strings.HasPrefix(kind, "hybrid") && c19Prob.Load() < 100 {
+			r.Count("hybrid_workloads_with_admission_probability_below_1", 1)
+		}
 		c19Workload(r, idx, kind, size, G, ops, keys)
 	}
 }
